@@ -77,12 +77,16 @@ def shape_builtin(item, ob):
     for combo in combos:
         made = [mk_arg(k, f'x{i}', ptys[i]) for i, k in enumerate(combo)]
         if any(m is None for m in made): continue
-        def run():
-            for m in made: E.assume(*m[1])
-            return E.run_fn(f, [Closure(f.params[0][1], [])] + [m[0] for m in made])
+        def run(combo=combo):
+            # the argument values are rebuilt for every path: builtins take them by value and mutate them in place (Rc counts, make_mut)
+            fresh = [mk_arg(k, f'x{i}', ptys[i]) for i, k in enumerate(combo)]
+            for m in fresh: E.assume(*m[1])
+            return E.run_fn(f, [Closure(f.params[0][1], [])] + [m[0] for m in fresh])
         old = signal.signal(signal.SIGALRM, on_alarm); signal.alarm(20)
         try: paths = E.explore(run, max_paths=400)
         except (_TO, Fuel): reasons.add('path explosion / time limit'); signal.alarm(0); continue
+        except Missing as e: reasons.add(str(e)[:120]); continue
+        except Exception as e: reasons.add('encoder limitation: ' + repr(e)[:100]); continue
         finally: signal.alarm(0); signal.signal(signal.SIGALRM, old)
         allsyms = [m[2] for m in made]
         def replay(model, combo=combo, allsyms=allsyms):
@@ -128,15 +132,22 @@ def shape_site(item, ob):
                 else: ob.check(name + ' returns', pc, z3.BoolVal(True), replay=replay, cls='C14/set_index slice/result')
     ob.absorb_engine(E)
 
+def shape_string_assign(item, ob):
+    """byte assignment into a string (set_index string arm) with one-byte, two-byte, multi-byte-character and non-string values: errors, never panics"""
+    from props import cow2
+    cow2.MIR = MIR
+    cow2.run_str(item, ob, 'C14')
+
 def run_shape(item, ob):
     fam, payload = item
-    {'builtin': shape_builtin, 'site': shape_site}[fam](payload, ob)
+    {'builtin': shape_builtin, 'site': shape_site, 'string_assign': shape_string_assign}[fam](payload, ob)
 
 def main(tier, seed, t0):
     global MIR
     MIR, th = load_mir('on')
     E = eng(); cl = builtin_closures(E)
     rnd = random.Random(seed); items = [('site', 'set_index_slice')]
+    for vk in ('byte', 'two', 'mb', 'num', 'none'): items.append(('string_assign', (False, 'Small', vk)))
     names = sorted(n for n in cl if n not in SKIP_NAMES)
     total = len(names); skipped_sig = []
     for name in names:
@@ -145,7 +156,11 @@ def main(tier, seed, t0):
         kinds = [[k for k in KINDS if mk_arg(k, 'p', t) is not None] for t in ptys]
         combos = list(itertools.product(*kinds))
         cap = {1: 11, 2: 14, 3: 8}[len(ptys)] if tier == 'quick' else {1: 11, 2: 60, 3: 40}[len(ptys)]
-        if len(combos) > cap: combos = rnd.sample(combos, cap)
+        if len(combos) > cap:
+            # always keep the homogeneous tuples (both machine-word ints, both big ints, ...): that is where arithmetic fast paths live
+            homog = [c for c in combos if len(set(c)) == 1 or set(c) <= {'IntSmall', 'IntBig'}]
+            rest_ = [c for c in combos if c not in homog]
+            combos = homog + rnd.sample(rest_, max(0, min(len(rest_), cap - len(homog))))
         items.append(('builtin', (name, combos)))
     merged, per = pmap(run_shape, items, tier)
     extras = [e for e in merged.get('extra', []) if e]
